@@ -18,7 +18,7 @@ def pfxOK (p : Prefix) : Bool := decide (p.addr.val < 2 ^ p.addr.fam.bits) && de
 (integer or decimal string) in `0..65535`. -/
 def itemEntry (cidr : Prefix) : ItemV → Option Entry
   | .entry (.str (.ok m)) (.int n) | .entry (.str (.ok m)) (.str n) =>
-    if pfxOK m && m.addr.fam == cidr.addr.fam && decide (0 ≤ n) && decide (n ≤ 65535) then
+    if pfxOK m && decide (m.addr.fam = cidr.addr.fam) && decide (0 ≤ n) && decide (n ≤ 65535) then
       some { cidr := cidr, mask := m, port := n.toNat }
     else none
   | _ => none
